@@ -57,9 +57,10 @@ def Persistent : Field → Bool
   | .smix_chn | .smix_ins | .smix_smp | .smix_xxi | .smix_xxs | .rng_state => true
   | _ => false
 
-/-- written by the `xmp_load_module*` wrappers from the caller's arguments -/
+/-- written unconditionally from the caller's arguments: names and size by the `xmp_load_module*`
+wrappers, the MD5 digest of the input by `load_module` -/
 def NameField : Field → Bool
-  | .m_filename | .m_dirname | .m_basename | .m_size => true
+  | .m_filename | .m_dirname | .m_basename | .m_size | .m_md5 => true
   | _ => false
 
 /-- `struct module_data` members a format loader (or `set_md5sum`) may write; a loader that does
@@ -68,7 +69,7 @@ def LoaderMayWrite : Field → Bool
   | .m_mod_name | .m_mod_type | .m_mod_pat | .m_mod_trk | .m_mod_chn | .m_mod_ins | .m_mod_smp
   | .m_mod_spd | .m_mod_bpm | .m_mod_len | .m_mod_rst | .m_mod_gvl | .m_mod_xxp | .m_mod_xxt
   | .m_mod_xxi | .m_mod_xxs | .m_mod_xxc_pan | .m_mod_xxc_vol | .m_mod_xxc_flg | .m_mod_xxo
-  | .m_comment | .m_md5 | .m_rrate | .m_time_factor | .m_c4rate | .m_volbase | .m_gvolbase
+  | .m_comment | .m_rrate | .m_time_factor | .m_c4rate | .m_volbase | .m_gvolbase
   | .m_gvol | .m_mvolbase | .m_mvol | .m_vol_table | .m_quirk | .m_flow_mode
   | .m_read_event_type | .m_period_type | .m_extra | .m_xtra | .m_midi | .m_compare_vblank => true
   | _ => false
@@ -244,50 +245,63 @@ def firstValid (xxo : Val) (pat len : Int) : Nat → Nat → Nat
 /-- `libxmp_mixer_numvoices` -/
 def numvoices (numvoc num : Int) : Int := if num > numvoc ∨ num < 0 then numvoc else num
 
-/-- `xmp_start_player`, success path (rate accepted, allocations succeed), on a LOADED or PLAYING context -/
-def startPlayer (X : Ext) (rate format : Int) (s0 : Ctx) : Ctx :=
-  let s1 := if s0 .state 0 > K.XMP_STATE_LOADED then endPlayer s0 else s0
-  let s := mixerOn X rate format s1
-  let chn := s .m_mod_chn 0
+/-- module length after the "skip invalid patterns at start" loop of `xmp_start_player` -/
+def startLen (s : Ctx) : Int :=
   let len0 := s .m_mod_len 0
   let ord0 := firstValid (s .m_mod_xxo) (s .m_mod_pat 0) len0 256 0
-  let len := if (ord0 : Int) ≥ len0 then 0 else len0
-  let ord : Nat := if len = 0 then 0 else ord0
-  let ext := X.start (restrict StartReads s)
-  -- update_from_ord_info
-  let ospeed := s .m_xxo_info_speed ord
-  let bpm := s .m_xxo_info_bpm ord
-  -- libxmp_virt_on
-  let numTracks := chn + s .smix_chn 0
+  if (ord0 : Int) ≥ len0 then 0 else len0
+
+/-- order the player starts at -/
+def startOrd (s : Ctx) : Nat :=
+  if startLen s = 0 then 0 else firstValid (s .m_mod_xxo) (s .m_mod_pat 0) (s .m_mod_len 0) 256 0
+
+def isVirtual (s : Ctx) : Bool := (s .m_quirk 0).toNat &&& K.QUIRK_VIRTUAL.toNat != 0
+
+/-- `libxmp_virt_on`: `p->virt.virt_channels` -/
+def virtChannels (s : Ctx) : Int :=
+  let numTracks := s .m_mod_chn 0 + s .smix_chn 0
+  if isVirtual s then numTracks + numvoices (s .s_numvoc 0) (-1) else numTracks
+
+/-- `libxmp_virt_on`: `p->virt.maxvoc` -/
+def maxVoc (s : Ctx) : Int :=
   let numvoc := s .s_numvoc 0
-  let virtual := (s .m_quirk 0).toNat &&& K.QUIRK_VIRTUAL.toNat != 0
   let num0 := numvoices numvoc (-1)
-  let virtChannels := if virtual then numTracks + num0 else numTracks
-  let num := if virtual then num0 else if num0 > virtChannels then virtChannels else num0
-  let maxvoc := numvoices numvoc num
+  let num := if isVirtual s then num0 else if num0 > virtChannels s then virtChannels s else num0
+  numvoices numvoc num
+
+/-- default mute status of channel `i` -/
+def muteOf (s : Ctx) (i : Nat) : Int :=
+  if (i : Int) < s .m_mod_chn 0 then
+    (if (s .m_mod_xxc_flg i).toNat &&& K.XMP_CHANNEL_MUTE.toNat != 0 then 1 else 0)
+  else 0
+
+/-- `xmp_start_player` after `libxmp_mixer_on`: everything up to `ctx->state = XMP_STATE_PLAYING` -/
+def startCore (X : Ext) (s : Ctx) : Ctx :=
+  let ext := X.start (restrict StartReads s)
   fun f => match f with
   | .p_master_vol | .p_smix_vol => cst 100
   | .p_pos | .p_row | .p_loop_count | .p_sequence => cst 0
   | .p_frame => cst (-1)
-  | .p_ord => cst ord
-  | .m_mod_len => cst len
-  | .p_channel_mute => fun i =>
-      if (i : Int) < chn then (if (s .m_mod_xxc_flg i).toNat &&& K.XMP_CHANNEL_MUTE.toNat != 0 then 1 else 0) else 0
+  | .p_ord => cst (startOrd s)
+  | .m_mod_len => cst (startLen s)
+  | .p_channel_mute => muteOf s
   | .p_channel_vol => cst 100
   | .p_inject_event_note | .p_inject_event_ins | .p_inject_event_vol | .p_inject_event_fxt
   | .p_inject_event_fxp | .p_inject_event_f2t | .p_inject_event_f2p | .p_inject_event_flag => cst 0
-  | .p_flow_num_rows => if len = 0 then cst 0 else cst (ext .p_flow_num_rows ord)
-  | .p_flow_end_point => if len = 0 then cst 0 else cst (ext .p_flow_end_point 0)
-  | .p_scan => if len = 0 then ptr (ext .p_scan 1) else s .p_scan
-  | .p_speed => cst (if ospeed ≠ 0 then ospeed else s .p_speed 0)
-  | .p_bpm => cst bpm
-  | .p_gvol => cst (s .m_xxo_info_gvl ord)
-  | .p_current_time => cst (s .m_xxo_info_time ord * 1000)
-  | .p_frame_time => cst (X.frameTime (s .m_time_factor 0) (s .m_rrate 0) bpm)
-  | .p_st26_speed => cst (s .m_xxo_info_st26_speed ord)
-  | .p_virt_num_tracks => cst numTracks
-  | .p_virt_virt_channels => cst virtChannels
-  | .p_virt_maxvoc => cst maxvoc
+  | .p_flow_num_rows => if startLen s = 0 then cst 0 else cst (ext .p_flow_num_rows (startOrd s))
+  | .p_flow_end_point => if startLen s = 0 then cst 0 else cst (ext .p_flow_end_point 0)
+  | .p_scan => if startLen s = 0 then ptr (ext .p_scan 1) else s .p_scan
+  -- update_from_ord_info
+  | .p_speed => cst (if s .m_xxo_info_speed (startOrd s) ≠ 0 then s .m_xxo_info_speed (startOrd s) else s .p_speed 0)
+  | .p_bpm => cst (s .m_xxo_info_bpm (startOrd s))
+  | .p_gvol => cst (s .m_xxo_info_gvl (startOrd s))
+  | .p_current_time => cst (s .m_xxo_info_time (startOrd s) * 1000)
+  | .p_frame_time => cst (X.frameTime (s .m_time_factor 0) (s .m_rrate 0) (s .m_xxo_info_bpm (startOrd s)))
+  | .p_st26_speed => cst (s .m_xxo_info_st26_speed (startOrd s))
+  -- libxmp_virt_on
+  | .p_virt_num_tracks => cst (s .m_mod_chn 0 + s .smix_chn 0)
+  | .p_virt_virt_channels => cst (virtChannels s)
+  | .p_virt_maxvoc => cst (maxVoc s)
   | .p_virt_virt_used => cst 0
   | .p_virt_voice_array => ptr (ext .p_virt_voice_array 1)
   | .p_virt_virt_channel => ptr (ext .p_virt_virt_channel 1)
@@ -296,6 +310,11 @@ def startPlayer (X : Ext) (rate format : Int) (s0 : Ctx) : Ctx :=
   | .p_buffer_data_consumed | .p_buffer_data_in_size => cst 0
   | .state => cst K.XMP_STATE_PLAYING
   | f => resetFlow s f
+
+/-- `xmp_start_player`, success path (rate accepted, allocations succeed), on a LOADED or PLAYING context -/
+def startPlayer (X : Ext) (rate format : Int) (s0 : Ctx) : Ctx :=
+  let s1 := if s0 .state 0 > K.XMP_STATE_LOADED then endPlayer s0 else s0
+  startCore X (mixerOn X rate format s1)
 
 /-! ## What a caller can observe of the reset -/
 
